@@ -815,3 +815,46 @@ brk("C16", "reader narrows the tensor", "X7", _sub(
 brk("C20", "functools.cache on a method reading public state", "A1", _multi(
     _sub(BC, 'from functools import lru_cache\n', 'from functools import lru_cache, cache\n'),
     _sub(BC, '    def spectral_density(self, omega: ArrayLike) -> ArrayLike:', '    @cache\n    def spectral_density(self, omega: ArrayLike) -> ArrayLike:')))
+
+# ------------------------------------------------------------------ C12 L5, C10 I5/I6, C07 V6/V7, C20 A8/A6b/A7
+brk("C12", "thermal eta kernel with the wrong sign of the reflected term", "L5", _sub(
+    BC, "                        * (((np.exp(-1j*tau * w) \\\n                             + np.exp(-(w / self.temperature - 1j*tau * w))) \\",
+    "                        * (((np.exp(-1j*tau * w) \\\n                             - np.exp(-(w / self.temperature - 1j*tau * w))) \\"))
+brk("C12", "T=0 eta kernel without the linear counter term", "L5", _sub(
+    BC, "                    (np.exp(-1j * w * tau) - 1) + 1j * w * tau)", "                    (np.exp(-1j * w * tau) - 1))"))
+brk("C12", "overflow branch of eta divides by w instead of w**2", "L5", _sub(
+    BC, "                    inte = self._spectral_density(w) / w ** 2 \\\n                        * (np.exp(-1j * w * tau) - 1 + 1j * w * tau)",
+    "                    inte = self._spectral_density(w) / w \\\n                        * (np.exp(-1j * w * tau) - 1 + 1j * w * tau)"))
+brk("C12", "thermal correlation integrand loses the reflected term", "L5", _sub(
+    BC, "                        * (np.exp(-1j * tau * w)\n                           + np.exp(-(1 / self.temperature * w \\\n                                      - 1j * tau * w))) \\",
+    "                        * (np.exp(-1j * tau * w)\n                           + np.exp(-(1 / self.temperature * w))) \\"))
+brk("C12", "thermal eta kernel subtracts 1 twice", "L5", _sub(
+    BC, "                            - np.exp(- w / self.temperature) - 1) \\", "                            - np.exp(- w / self.temperature) - 2) \\"))
+brk("C10", "inner sites weighted 1 in the nn Liouvillians", "I5", _sub(
+    SY, "            factor_r = 1 if i == len(self)-2 else 0.5", "            factor_r = 1 if i >= len(self)-3 else 0.5"))
+brk("C10", "left boundary weighted one half", "I5", _sub(
+    SY, "            factor_l = 1 if i == 0 else 0.5", "            factor_l = 0.5"))
+brk("C10", "order-2 Trotter layers with the full time step", "I6", _sub(
+    MM, "            dt=time_step/2.0,\n            epsrel=epsrel)\n        propagator = TebdPropagator(gate_layers=[layers[0],\n                                                 layers[1],\n                                                 layers[1],",
+    "            dt=time_step,\n            epsrel=epsrel)\n        propagator = TebdPropagator(gate_layers=[layers[0],\n                                                 layers[1],\n                                                 layers[1],"))
+brk("C10", "order-2 sequence not symmetric", "I6", _sub(
+    MM, "                                                 layers[1],\n                                                 layers[1],\n                                                 layers[0]])",
+    "                                                 layers[1],\n                                                 layers[0],\n                                                 layers[1]])"))
+brk("C10", "PT-TEBD propagator built with the full step", "I6", _sub(
+    TEBD, "                time_step=self._parameters.dt/2.0,", "                time_step=self._parameters.dt,"))
+brk("C07", "equal times treated as unordered", "V6", _sub(
+    SD, "                mask = last_times >= ft_max\n", "                mask = last_times > ft_max\n"))
+brk("C07", "right ordering builds a left superoperator", "V7", _sub(
+    SD, "            super_operators.append(right_super(operators[i]))", "            super_operators.append(left_super(operators[i]))"))
+brk("C07", "expectation taken with the first operator", "V7", _sub(
+    SD, "    _, corr = dynamics.expectations(operators[-1])", "    _, corr = dynamics.expectations(operators[0])"))
+brk("C20", "Bath keeps the caller's correlations object", "A8", _sub(
+    BA, "        self._correlations = copy(correlations)", "        self._correlations = correlations"))
+brk("C20", "Bath hands out its internal commutator array", "A8", _sub(
+    BA, "        return self._coupling_comm.copy()", "        return self._coupling_comm"))
+brk("C20", "Hamiltonian frozen without a copy", "A8", _sub(
+    SY, "        tmp_hamiltonian = np.array(hamiltonian, dtype=NpDtype)\n        tmp_hamiltonian.setflags(write=False)",
+    "        tmp_hamiltonian = np.asarray(hamiltonian, dtype=NpDtype)\n        tmp_hamiltonian.setflags(write=False)"))
+brk("C20", "numpy error state changed inside a computation", "A6b", _sub(
+    BC, "        # real and imaginary part of the integrand\n        if matsubara:\n            tau = -1j * tau\n        # convention is tau.imag < 0\n        if self.temperature == 0.0:\n            check_true(\n                matsubara is False,\n                'Matsubara correlations only defined for temperature > 0')\n            def integrand(w):\n                return self._spectral_density(w) * np.exp(-1j * w * tau)",
+    "        # real and imaginary part of the integrand\n        np.seterr(over='ignore')\n        if matsubara:\n            tau = -1j * tau\n        # convention is tau.imag < 0\n        if self.temperature == 0.0:\n            check_true(\n                matsubara is False,\n                'Matsubara correlations only defined for temperature > 0')\n            def integrand(w):\n                return self._spectral_density(w) * np.exp(-1j * w * tau)"))
